@@ -301,6 +301,24 @@ def discharge(ob, use_cvc5=True, z3_ms=None, cvc5_ms=None, fast=False):
         st, model, reason, s = _z3_try(ob.pc, defs, f, z3_ms)
         use_cvc5 = False
     if st == "unknown" and len(parts) > 1:
+        # quick pass: one short complete query per conjunct, looking for a counter-model before the long staged attempts
+        for p_ in parts:
+            sq = z3.Solver()
+            sq.set("timeout", 800)
+            sq.set("random_seed", 7)
+            if quant:
+                sq.set("smt.auto_config", False)
+            sq.add(*ob.pc)
+            sq.add(*defs)
+            sq.add(z3.Not(p_))
+            if sq.check() == z3.sat:
+                try:
+                    model = model_to_dict(sq.model())
+                except Exception:
+                    model = {}
+                ob.ms = (time.time() - t0) * 1000
+                ob.status, ob.solver, ob.model = "refuted", "z3", model
+                return ob
         sts = []
         for p_ in parts:
             st_p, m_p, r_p, s_p = _z3_try(ob.pc, defs, p_, z3_ms)
